@@ -21,7 +21,7 @@ import (
 // TestVerifC16Resolve: source resolution of a cascade replica (pure function over generated maps).
 func TestVerifC16Resolve(t *testing.T) {
 	stt := vs.NewStats(t, "C16")
-	stt.Rule = "findBestStreamFrom on generated stream_from maps over 1-5 cascade hosts + 2 HA hosts (chains, cycles incl. through the replica itself, self-references, references to HA nodes and to the master; every referenced host registered), each host healthy / dead / offline / lagging beyond stream_from_reasonable_lag / replication stopped / lag unknown, the replica already streaming from its configured source or not; reference resolver written from the statement; also: result is never the replica itself, is a registered host, and the call returns (watchdog); non-trivial = the configured source was not simply returned (an ancestor, the master or a cycle decided)"
+	stt.Rule = "findBestStreamFrom on generated stream_from maps over 1-5 cascade hosts + 2 HA hosts (chains, cycles incl. through the replica itself, self-references, references to HA nodes and to the master; every referenced host registered), each host healthy / dead / offline / lagging beyond stream_from_reasonable_lag / replication stopped / lag unknown, the replica currently streaming from its configured source, or from any other host (an ancestor further up the chain included); reference resolver written from the statement; also: result is never the replica itself, is a registered host, and the call returns (watchdog); non-trivial = the configured source was not simply returned (an ancestor, the master or a cycle decided)"
 	lg := zerolog.Nop()
 	stt.Check(t, vs.CheckOpts{}, func(c *vs.Case) {
 		cfg, _ := config.DefaultConfig()
@@ -66,6 +66,10 @@ func TestVerifC16Resolve(t *testing.T) {
 		if c.Src.Bool("already_streaming_from_configured") && cs[r].SlaveState != nil {
 			cs[r].SlaveState.MasterHost = topo[r].StreamFrom
 			cs[r].SlaveState.ReplicationState = mysql.ReplicationRunning
+		} else if cs[r].SlaveState != nil {
+			// ... or from any other host (e.g. an ancestor further up, where an earlier repair put it);
+			// only the CONFIGURED source enjoys the "keep what already works" rule
+			cs[r].SlaveState.MasterHost = all[c.Src.Int("currently_streaming_from", 0, len(all)-1)]
 		}
 		// reference resolver
 		want, why := "", ""
